@@ -2,6 +2,6 @@ SPECIFICATION Spec
 CONSTANTS
   ValueUniverses <- VU_quick
   MetaUniverses <- MU_quick
-  Metas <- MetasStd
-INVARIANTS Total SelfDelimiting ExtensionStable NestedValid MetaLaws
+  Metas <- MetasQuick
+INVARIANTS Total SelfDelimiting ExtensionStable NestedValid MetaLaws Emit
 CHECK_DEADLOCK FALSE
